@@ -307,11 +307,12 @@ pub fn space_a_k(thorough: bool, max_k: usize) -> Vec<Prog> {
                         out.push(build_graph_program(&entries, k, dag, &calls, *form, off, Touch::Own, false, key.clone()));
                         // the order in which a function calls its callees (callee-of-callee reached first or last)
                         let multi_call = calls.iter().any(|c| c.count_ones() >= 2) || (0..n_edges).filter(|e| dag & (1 << e) != 0).count() >= 2;
-                        if multi_call && matches!(form, CallForm::Stmt | CallForm::Let) {
+                        let variants = thorough || k <= 2 || entries.len() <= 2;
+                        if variants && multi_call && matches!(form, CallForm::Stmt | CallForm::Let) {
                             out.push(build_graph_program(&entries, k, dag, &calls, *form, off, Touch::Own, true, format!("{key}|order=desc")));
                         }
                         // shared-resource variants: statement and let forms only (the forms do not interact with sharing)
-                        if k >= 1 && matches!(form, CallForm::Stmt | CallForm::Let) {
+                        if variants && k >= 1 && matches!(form, CallForm::Stmt | CallForm::Let) {
                             for tm in [Touch::SharedAll, Touch::SharedLeaves] {
                                 out.push(build_graph_program(&entries, k, dag, &calls, *form, off, tm, false, format!("{key}|touch={tm:?}")));
                             }
